@@ -17,6 +17,7 @@ GNext == \/ /\ kq # <<>> /\ Handle /\ UNCHANGED hist
             /\ \/ \E r \in Roots : (AddRec(r) /\ Lbl(<<"add", TruePath(r)>>)) \/ (RemoveRec(r) /\ Lbl(<<"remove", TruePath(r)>>))
                \/ \E p \in 1..MaxIno, n \in Comp : Mkdir(p, n) /\ Lbl(<<"mkdir", Append(TruePath(p), n)>>)
                \/ \E i \in 1..MaxIno : Rmdir(i) /\ Lbl(<<"rmdir", TruePath(i)>>)
+               \/ \E p \in 1..MaxIno, n \in Comp : Touch(p, n) /\ Lbl(<<"touch", Append(TruePath(p), n)>>)
                \/ \E i, np \in 1..MaxIno, n \in Comp : Rename(i, np, n) /\ Lbl(<<"rename", TruePath(i), Append(TruePath(np), n)>>)
                \/ \E i, j \in 1..MaxIno : RenameOver(i, j) /\ Lbl(<<"rename2", TruePath(i), TruePath(j)>>)
 GSpec == GInit /\ [][GNext]_gvars
